@@ -65,11 +65,11 @@ func init() {
 		Level: "exploration",
 		Rule: "one case = one load of one input under one option vector (all byte strings over per-format alphabets up to a length bound, in memory via DATA::() and file backed; generated large files), " +
 			"or one call of one built-in function (scalar, aggregate, analytic form) on one argument tuple of the boundary alphabet, or one clause/statement template on one argument tuple, " +
-			"or one statement under one file-system condition; enumerated without repetition. non-trivial = load produced a table with at least one record (rectangularity and last-column selection are checked on it) / " +
+			"or one statement under one file-system condition, or one call with a length / precision / width argument of 2^32 or more (family huge); enumerated without repetition. non-trivial = load produced a table with at least one record (rectangularity and last-column selection are checked on it) / " +
 			"the function call got past argument counting / the statement parsed / every file-system case",
 		Assume: []string{
 			"in-process csvq (lib/query) stands for the CLI: the exit code is computed like lib/cli/app.go Exit() does (query.Error.Code(), else 1)",
-			"children run with RLIMIT_AS = 4 GiB (3 GiB while a stalled case is examined alone); integers above 1e6 are not passed where the manual defines an output length or precision (LPAD/RPAD len, NUMBER_FORMAT/ROUND/CEIL/FLOOR place)",
+			"children run with RLIMIT_AS = 4 GiB (3 GiB while a stalled case is examined alone); integers between 1e6 and 2^32 are not passed where the manual defines an output length or precision (LPAD/RPAD len, NUMBER_FORMAT/ROUND/CEIL/FLOOR place, FORMAT width/precision): whether such a request is served is a matter of resources; 2^32 and more (family huge) cannot be served within the address space and must be refused",
 			"non-termination = a case that stalls the enumeration (4 CPU-seconds without a progress record) and then, alone in a fresh process, burns 30 CPU-seconds (or sleeps 30 s with every thread blocked) without ending; TZ=UTC; no fault injection, no unreadable/read-only files (the harness runs as root)",
 			"documented terminations: command.md 'Return Code' (0,1,2,4,8,16,32,64) and a non-empty message that is not csvq's '[Fatal Error]' report",
 		},
@@ -83,7 +83,7 @@ func init() {
 // ---- cases ---------------------------------------------------------------------------------------
 
 type c19Case struct {
-	Fam  string          `json:"f"`           // fs | clause | fn | load | big
+	Fam  string          `json:"f"`           // fs | clause | fn | huge | load | big
 	Fmt  string          `json:"m,omitempty"` // csv fixed ltsv json jsonl
 	Via  string          `json:"v,omitempty"` // data | file | inline | auto
 	Data string          `json:"d,omitempty"` // hex of the input bytes
@@ -111,6 +111,8 @@ func (cs *c19Case) class() string {
 		return "clause:" + cs.Tpl
 	case "fn":
 		return "fn:" + cs.Form + ":" + cs.Fn
+	case "huge":
+		return "huge:" + cs.Fn + ":" + cs.Form
 	case "big":
 		if cs.Big != nil {
 			return "big:" + cs.Big.Format + ":" + cs.Big.Shape
@@ -230,7 +232,7 @@ func c19Replay(c *core.Ctx, payload json.RawMessage) {
 	if os.Getenv("C19_CHILD") != "" {
 		return
 	}
-	if c19CliReplay(c, payload) {
+	if c19CliReplay(c, payload) || c19ExtReplay(c, payload) {
 		return
 	}
 	var cs c19Case
@@ -736,6 +738,7 @@ func c19Families() []c19Family {
 		{"clause", c19EnumClauses},
 		{"fn-scalar", c19EnumScalar},
 		{"fn-set", c19EnumSetFunctions},
+		{"huge", c19EnumHuge}, // c19_huge.go
 		{"load-csv", c19EnumLoadCSV},
 		{"load-ltsv", c19EnumLoadLTSV},
 		{"load-json", c19EnumLoadJSON},
@@ -921,6 +924,8 @@ func (r *c19Runner) exec(cs *c19Case) {
 		r.execClause(cs)
 	case "fn":
 		r.execFn(cs)
+	case "huge":
+		r.execHuge(cs)
 	case "load", "big":
 		r.execLoad(cs)
 	default:
